@@ -23,6 +23,13 @@ Tie
       afld/aint float(field) / int(field) (CPython)        == Op4A.pyFloat? (+ PyFloat.toBits) / Op4A.pyInt?
       avals     OP4._put_ascii_values_sparse[_c]           == Op4A.readVals (fields + pyFloat?)
       ablk      OP4._get_ascii_block                       == Op4A.getBlock
+      wr        bytes / text written by op4.write on its *arguments* (mapping / list / single names, matrices and
+                forms; 0-d, 1-d, 2-d, 3-d inputs of float64/float32/int/uint/bool/complex128/complex64 dtype, native or
+                byte-swapped, C/F-ordered, strided, negatively strided, python scalars and nested lists; scipy.sparse
+                coo/csr/csc/bsr/dia/lil with stored triplets in any order, explicit zeros, duplicates, unsorted indices)
+                                                           == Op4.prepare + writeAllWords / writeOneAscii
+                                                              (Model/Op4Input.lean, Model/Op4Sparse.lean)
+      tod       scipy.sparse.coo_matrix((V,(I,J))).toarray() == Op4.cooToDense (IEEE addition in the driver)
   * model-free oracle (search / replay): read(write(x)) == x on the public API only; and, for ASCII variant
     files, read(text) == the logical content the text was generated from (independent Python encoder).
 """
@@ -48,7 +55,8 @@ Infra = getattr(_main, "Infra", _runner.Infra)
 
 ID = "C04"
 LEAN_MODULES = ["PyYetiVerif.Props.C04", "PyYetiVerif.Audit.C04", "PyYetiVerif.Model.PyFloat",
-                "PyYetiVerif.Model.Op4Variants"]  # (the last two: imported by Drivers/C04.lean)
+                "PyYetiVerif.Model.Op4Variants", "PyYetiVerif.Model.Op4Input", "PyYetiVerif.Model.Op4AsciiBits"]
+                # (the last four: imported by Drivers/C04.lean)
 AUDIT_FILE = "PyYetiVerif/Audit/C04.lean"
 THEOREMS = [
     "PyYetiVerif.C04." + n
@@ -59,16 +67,23 @@ THEOREMS = [
         "fmtE_width ascii_overflow_example file_roundtrip_bytes empty_file_refused value_lines ascii_slicing "
         "fits_iff_width ascii_column_roundtrip_dense ascii_column_roundtrip_bigmat ascii_column_roundtrip_nonbigmat "
         "string_lines header_roundtrip_ascii file_roundtrip_ascii decOf_zero ascii_entry_spec sci_mantissa_digits "
-        "ascii_value_half_unit field_roundtrip"
+        "ascii_value_half_unit field_roundtrip "
+        "write_domain recLen_spec file_roundtrip_binary_domain file_roundtrip_bytes_domain sparse_auto_rule storedIdx_spec "
+        "coo_view_correct write_sparse_eq_write_dense denseMat_entry ensure_2d_shapes "
+        "vector_input_is_row write_input_normalised plumb_spec write_replaces_file read_back_bits read_back_bits_subnormal "
+        "read_back_bits_finite read_back_needs_17 dir_matches_load_ascii sparse_views_ascii"
     ).split()
 ]
 TRUSTED = [
     "correspondence harness harness/props/c04.py (exact: bytes, text, decoded bit patterns)",
     "translator harness/translate/c04_op4consts.py (constants of op4.py -> Generated/Op4Consts.lean)",
     "CPython struct.pack/unpack, '%E' formatting, int() and float() are modelled (fmtE, pyInt?, pyFloat? + the "
-    "correctly rounded PyFloat.toBits in the driver) and correspondence-checked, not verified",
+    "correctly rounded PyFloat.toBits: decBits, Model/Op4AsciiBits.lean) and correspondence-checked, not verified",
     "CPython text-mode readline / itertools.islice are modelled by cutting the text at '\\n' (linesOf)",
-    "numpy/scipy.sparse containers (nonzero, lexsort, find, coo_matrix) are modelled by list functions",
+    "numpy/scipy.sparse containers are modelled by what they compute: nonzero, lexsort, atleast_2d, astype (Raw.toD), "
+    "sp.find = sum of the stored values of a position in numpy's reduceat order with zero sums dropped (foundAt), "
+    "tocoo() presents the stored triplets, coo_matrix(...).toarray() adds them from +0.0 (cooToDense), np.allclose (a "
+    "parameter of autoForm); IEEE double addition is Lean's Float addition in the driver and a parameter in the theorems",
     "matrix names are ASCII; doubles are finite (the property's quantifier)",
 ]
 RULE = (
@@ -81,55 +96,92 @@ RULE = (
     "text is read by the Lean ASCII reader; ASCII reader only: variant files (any perline/width, D or E exponents, "
     "1P or not, lower case, single/double, arbitrary string partitions, 3-digit exponents of both signs, values that "
     "under/overflow), mutated texts (what the reader rejects), single fields for float()/int(), blocks for the put "
-    "functions and _get_ascii_block; non-trivial = some matrix has a column with at least two strings or the write "
-    "raises (files) / every case (reader-only streams); distinct by the whole logical input"
+    "functions and _get_ascii_block; write arguments (wr): 1-3 entries given as a mapping (matrix, (matrix, form) or "
+    "(matrix, None) values), as lists / a tuple (forms absent, complete or one short) or as single values; each matrix a "
+    "0-d / 1-d / 2-d (also 0 x n, n x 0) / 3-d array of float64, float32, int64, int32, uint8, uint64, bool, "
+    "complex128, complex64 or byte-swapped dtype in C, Fortran, strided or negatively strided memory, a python scalar or "
+    "nested list, or a scipy.sparse coo/csr/csc/bsr/dia/lil matrix built from shuffled triplets with explicit +-0.0 "
+    "entries, up to three duplicates of a position (also cancelling ones) and unsorted csr/csc indices (values finite "
+    "and of magnitude below 1e150 so that every summation order stays finite), x layout option x binary/ASCII x byte "
+    "order x digits; toarray (tod): up to 12 triplets on at most 6 x 5, up to three per position, values incl. +-0.0; "
+    "non-trivial = some matrix has a column with at least two strings or the write raises (files) / every case "
+    "(reader-only and argument streams); distinct by the whole logical input"
 )
 ASSUMPTIONS = [
     "values are finite doubles; names are ASCII; digits between 1 and 73 (perline >= 1)",
-    "binary: matrices have fewer than 2^28 rows (word level) / 2^27 rows (byte level: record lengths are 32-bit words)",
+    "binary: the writer's own domain (write_domain): dimensions <= 2^31 - 1, cols + 1, form and every column record length "
+    "12 + 8*elems / 4*(3 + nwords) below 2^31, nonbigmat strings with L + 1 < 32768 (F2); form is a non-negative integer",
     "ASCII theorems: 6*rows < 10^8, columns + 1 < 10^8, form < 10^8 (every integer fits its 8-character field), "
     "valid names of at most 8 characters, at least one matrix per file, every written value fits its field "
-    "(not negative with a 3-digit exponent: finding F3)",
+    "(not negative with a 3-digit exponent: finding F3); the writer's ValueError above 99 999 999 rows is not modelled",
     "ASCII reader model: no carriage returns, no underscores / inf / nan in numbers, announced perline and numlen "
     ">= 1, no negative row / column / length fields (the model answers `reject`; the harness never produces them)",
+    "scipy.sparse inputs: double precision values in the duplicate-summing model (float32 / integer sparse inputs are "
+    "tied without duplicates), at most 8 stored values per position (numpy sums longer runs pairwise); write arguments: a python list as a mapping value means (matrix, form) and a python list "
+    "as `matrices` means a list of matrices (documented), so nested lists are matrices only inside a list of matrices",
 ]
 PARTIAL = (
-    "binary and ASCII: the sparse=True COO view (cooOfPuts) and what sparse=None resolves to (sparseAuto) are model "
-    "definitions checked by correspondence, not theorems - the file theorems are about the dense read; "
-    "ASCII: the theorems end at the exact decimal a field denotes (read-back decimal = printed decimal, "
-    "|printed - x| <= half a unit of the last digit); the last step float(decimal) -> nearest double is CPython's "
-    "(modelled in the driver by PyFloat.toBits and correspondence-checked bit for bit), so 'bit-identical for "
-    "digits >= 16' is established by the oracle, not proved; dir on ASCII files (_skipop4_ascii) is modelled and "
-    "correspondence-checked (dirAscii) without a theorem; files with carriage returns are outside the reader model"
+    "proved now: the sparse=True view and the sparse=None rule for binary files (coo_view_correct, sparse_auto_rule), "
+    "sparse inputs = their ndarray (write_sparse_eq_write_dense), input normalisation and argument plumbing "
+    "(write_input_normalised), the writer's true domain (file_roundtrip_binary_domain), float(decimal) = the printed "
+    "double for digits >= 16 (read_back_bits*), dir on written ASCII files (dir_matches_load_ascii). Still not proved: "
+    "(1) .toarray() of the sparse=True result is proved for binary files only (for ASCII files sparse_views_ascii gives "
+    "the triplets of printed decimals and the sparse=None rule; the rounding of each decimal is read_back_bits); (2) that scipy's sp.find / tocoo / toarray compute what foundAt / cooToDense say (summation "
+    "order of duplicates, zero signs) and numpy's astype what Raw.toD says is tied by the wr / tod streams, not proved; "
+    "write_sparse_eq_write_dense is about the ndarray denseMat (the found sums), which equals A.toarray() only up to the "
+    "sign of zero parts and, from three duplicates of one position on, the last bit of the sum; (3) the automatic form "
+    "(autoForm, np.allclose as a parameter) is a model definition checked by correspondence, no theorem; (4) "
+    "read_back_bits is per field ((pyFloat? (fmtE d b)).map decBits = some b for every finite double, digits 16..5000): "
+    "the file-level statement follows entry by entry from file_roundtrip_ascii + ascii_entry_spec but is not restated; "
+    "complex elements of the sparse read additionally pass through re + 1j*im (cooEntry); (5) dir / load on ASCII variants the writer never produces and files with carriage returns are outside "
+    "(C11); the ASCII writer's ValueError above 99 999 999 rows is not modelled"
 )
 MANIFEST = {
-    "level_text": "Proof (Lean 4, kernel-checked, standard axioms) about exact models of the OUTPUT4 binary writer/reader "
-    "(bytes), the ASCII writer (text, with a bit-exact model of CPython's %E) and the ASCII reader (lines, int(), "
-    "float() as exact decimals). Binary: for every non-empty list of matrices, layout and byte order, decodeBytes of "
-    "the written bytes is the written names (lower-cased), shapes, forms, types and columns (file_roundtrip_bytes = "
-    "file_roundtrip_binary + bytes_roundtrip + name_roundtrip + format detection; -0.0 outside written strings reads "
-    "as +0.0) exactly when the writer succeeds, which is iff every nonbigmat string satisfies L+1 < 32768 "
-    "(pack_fits_i32, finding F2). ASCII: for every non-empty list of matrices and digits 1..73, loadAscii of the written "
-    "text returns per matrix the name field, rows, columns, form, type and announced format, and every non-zero "
-    "element reads back as exactly the printed decimal (file_roundtrip_ascii, ascii_entry_spec), which is within half a "
-    "unit of the last printed digit of the double (ascii_value_half_unit; the printed mantissa has exactly digits+1 "
-    "digits, sci_mantissa_digits) - under the hypothesis that every value fits its field, which holds iff not (x<0 and "
-    "|exp10|>=100) (fmtE_width, fits_iff_width; finding F3). ascii_slicing: for every width, perline and count the "
-    "reader's slices of the value lines are the written fields; ascii_column_roundtrip_{dense,bigmat,nonbigmat} for "
-    "every partition into strings; _sparse_col_stats yields exactly the maximal runs and the word count the readers "
-    "consume to zero.",
-    "level_note": "Tied, not proved: the models are tied to op4.py by the constants translator and by exact "
-    "correspondence of bytes, text, decoded values, listings, single fields and blocks (pyYeti's own ASCII files for "
-    "digits 1..16/17/20/30/73/default and all layouts, variant files, mutated texts). The sparse=True / sparse=None "
-    "views, dir on ASCII files and the final float(decimal) rounding are model definitions / driver code checked by "
-    "correspondence only (see PARTIAL). Trusted: Lean kernel; propext, Classical.choice, Quot.sound; the Python "
-    "harness; CPython struct/int/float/%E and text-mode line reading; numpy/scipy containers.",
+    "level_text": "Proof (Lean 4, kernel-checked, standard axioms) about exact models of op4.write / op4.load / op4.dir: the "
+    "argument plumbing and input normalisation of write, both writers incl. their scipy.sparse branches, the binary reader "
+    "(bytes), the ASCII reader (lines, int(), float() as exact decimals, then the correctly rounded decimal -> double). "
+    "Binary: for every non-empty list of matrices, layout and byte order on the writer's own domain (every integer handed "
+    "to struct.pack fits: write_domain), decodeBytes of the written bytes is the written names (lower-cased), shapes, forms, "
+    "types and columns (file_roundtrip_bytes_domain / file_roundtrip_binary_domain; -0.0 outside written strings reads as "
+    "+0.0); the writer fails exactly outside that domain or when a nonbigmat string has L+1 >= 32768 (pack_fits_i32, F2). "
+    "sparse=True returns exactly the stored elements as (row, col, value) triplets in file order - the non-zero elements "
+    "for the sparse layouts, everything from the first to the last non-zero row for the dense layout - and its .toarray() "
+    "is the dense read up to the sign of zeros (coo_view_correct, storedIdx_spec); sparse=None returns a sparse matrix iff "
+    "bigmat with rows or nonbigmat with a non-zero, and otherwise the file is byte-identical to the dense-layout file "
+    "(sparse_auto_rule). Inputs: whatever write is given (mapping / lists / single values, 0-d/1-d/2-d arrays of any dtype, "
+    "scipy.sparse with duplicates, explicit zeros, any order) the file is the file of the normalised 2-d double matrices "
+    "with checked names, resolved forms and layouts (write_input_normalised, write_sparse_eq_write_dense, "
+    "vector_input_is_row: a 1-d array is one row); every call replaces the file. ASCII: for every non-empty list of "
+    "matrices and digits 1..73, loadAscii of the written text returns per matrix the name field, rows, columns, form, type "
+    "and announced format, and every non-zero element reads back as exactly the printed decimal (file_roundtrip_ascii, "
+    "ascii_entry_spec), which is within half a unit of the last printed digit (ascii_value_half_unit) - under the "
+    "hypothesis that every value fits its field, which holds iff not (x<0 and |exp10|>=100) (fmtE_width, F3); with "
+    "digits >= 16 the decimal rounds back to the bit-identical double, for every finite double incl. subnormals and "
+    "signed zeros (read_back_bits, read_back_bits_subnormal, read_back_bits_finite; 16 significant digits are not enough: "
+    "read_back_needs_17); the sparse views of ASCII files are the same triplets / rule with printed decimals "
+    "(sparse_views_ascii); dir lists exactly what load returns (dir_matches_load_ascii; binary: C11). ascii_slicing, "
+    "ascii_column_roundtrip_{dense,bigmat,nonbigmat} for every partition into strings; _sparse_col_stats yields exactly "
+    "the maximal runs and the word count the readers consume to zero.",
+    "level_note": "Tied, not proved: the models are tied to op4.py by the constants translator and by exact correspondence "
+    "of bytes, text, decoded values, listings, single fields and blocks (pyYeti's own files for all layouts, digits "
+    "1..16/17/20/30/73/default, variant files, mutated texts) and of the files written for generated *arguments* of "
+    "write (wr stream: dtype, memory layout, dimensionality, mapping/list/single interfaces, scipy.sparse formats with "
+    "duplicates, explicit zeros, unsorted indices). Library behaviour is modelled by what it computes and checked by "
+    "correspondence only: sp.find / tocoo / toarray (summation order of duplicates), astype, np.allclose (automatic "
+    "form), struct, '%E', int(), float(). Finding "
+    "F49 (int32 wrap of the 2 GiB dense record of a sparse input) is repaired in /repo and the model follows the repaired "
+    "code (the sparse path refuses where the ndarray path refuses: write_sparse_eq_write_dense has no size hypothesis); "
+    "the regression is guarded by the oracle: _oracle_f49_quick in every run (the inner binary writer on a file object "
+    "that stops after the column header: no large memory), _oracle_f49 (the full 2 GiB write, then dir) in the thorough tier. "
+    "Trusted: Lean kernel; propext, Classical.choice, Quot.sound; the Python harness; CPython / numpy / scipy as listed.",
     "technique": "Lean 4 proof (induction over lines/strings/columns/matrices, omega on the packed header, bisection "
-    "invariant for the %E exponent, rational arithmetic for the half-unit bound, relational transport of the binary "
-    "put lemmas to the ASCII reader) + source->Lean constants translator + exact differential correspondence of "
-    "bytes, text, decoded values, fields and blocks",
+    "invariant for the %E exponent, rational arithmetic for the half-unit bound and for round-to-nearest of a decimal "
+    "within half an ulp, cell-wise reasoning for COO -> dense, relational transport of the binary put lemmas to the ASCII "
+    "reader) + source->Lean constants translator + exact differential correspondence of bytes, text, decoded values, "
+    "fields, blocks and write arguments",
 }
 
+FIXED_F49 = "op4-binary-dense-sparse-input-record-ge-2GiB-int32-wrap"
 KNOWN_F2 = "op4-binary-nonbigmat-string-ge-16384-rows"
 KNOWN_F3 = "op4-ascii-negative-3digit-exponent"
 FIXED_F24 = "op4-binary-skip-zero-column-matrix"  # found by this check, repaired in /repo (fix: commit 24d6cc5)
@@ -362,27 +414,83 @@ def _gen_matrix(rng, vstyle, max_rows=12, max_cols=6, allow_negzero=True):
     return {"kind": kind, "cplx": cplx, "D": D}
 
 
+def _exact_eighths(D):
+    """are all parts small multiples of 1/8 (so that sums of a few of them are exact in any order)?"""
+    v = np.ascontiguousarray(D)
+    v = v.view(np.float64) if np.iscomplexobj(v) else v
+    return bool(np.all(np.abs(v) < 2.0 ** 40) and np.all(v * 8 == np.round(v * 8)))
+
+
 def _as_input(rng, m):
-    """the object handed to op4.write"""
+    """the object handed to op4.write: for a sparse matrix any scipy format, stored triplets in any order, explicit
+    zeros, duplicates (only where the sum is exact in every order); for an ndarray any memory layout and, where the
+    values are representable, another dtype"""
     D = m["D"]
     if m["kind"] == "sparse":
-        fmt = rng.choice(["coo", "csr", "csc"])
-        if rng.random() < 0.2 and D.size:
-            # explicit stored zero: must be dropped by the writer (scipy.sparse.find)
-            i, j, v = sp.find(sp.coo_matrix(D))
-            zi, zj = np.nonzero(D == 0)
-            if len(zi):
-                q = rng.randrange(len(zi))
-                i = np.append(i, zi[q])
-                j = np.append(j, zj[q])
-                v = np.append(v, 0.0)
-            A = sp.coo_matrix((v, (i, j)), shape=D.shape)
-        else:
-            A = sp.coo_matrix(D)
-        return {"coo": A, "csr": A.tocsr(), "csc": A.tocsc()}[fmt]
-    if rng.random() < 0.3:
-        return np.asfortranarray(D)
-    return D.copy()
+        fmt = rng.choice(["coo", "csr", "csc", "bsr", "coo", "csr-raw", "csc-raw", "dia", "lil"])
+        if D.size > 10000 and fmt in ("dia", "lil", "bsr"):
+            fmt = "csc"     # (thousands of diagonals / python lists: pointless on the big shapes)
+        i, j = np.nonzero(D)
+        v = D[i, j]
+        trip = [[int(a), int(b), c] for a, b, c in zip(i.tolist(), j.tolist(), v.tolist())]
+        if fmt in ("coo", "csr-raw", "csc-raw"):
+            if trip and _exact_eighths(D) and rng.random() < 0.4:
+                # duplicates: v = v1 + v2 (+ v3), exactly
+                out = []
+                for a, b, c in trip:
+                    if rng.random() < 0.5:
+                        h = np.round(c * 4) / 8 if not isinstance(c, complex) else complex(np.round(c.real * 4) / 8, np.round(c.imag * 4) / 8)
+                        parts = [h, c - h]
+                        if rng.random() < 0.3:
+                            parts = [h, 1.0, c - h - 1.0]
+                        out += [[a, b, x] for x in parts]
+                    else:
+                        out.append([a, b, c])
+                trip = out
+            if D.size and rng.random() < 0.3:
+                zi, zj = np.nonzero(D == 0)
+                if len(zi):
+                    q = rng.randrange(len(zi))
+                    trip.append([int(zi[q]), int(zj[q]), 0.0])   # explicit stored zero: dropped by the writer
+            rng.shuffle(trip)
+        I = np.array([t[0] for t in trip], dtype=np.int32)
+        J = np.array([t[1] for t in trip], dtype=np.int32)
+        V = np.array([t[2] for t in trip], dtype=D.dtype)
+        if fmt in ("csr-raw", "csc-raw"):
+            major, minor, n = (I, J, D.shape[0]) if fmt == "csr-raw" else (J, I, D.shape[1])
+            order = np.argsort(major, kind="stable")
+            indptr = np.concatenate(([0], np.cumsum(np.bincount(major, minlength=n)))).astype(np.int32)
+            cls = sp.csr_matrix if fmt == "csr-raw" else sp.csc_matrix
+            return cls((V[order], minor[order], indptr), shape=D.shape)   # unsorted indices, duplicates kept
+        A = sp.coo_matrix((V, (I, J)), shape=D.shape)
+        if fmt == "coo":
+            return A
+        return {"csr": A.tocsr, "csc": A.tocsc, "bsr": A.tobsr, "dia": A.todia, "lil": A.tolil}[fmt]()
+    X = D
+    if D.size and rng.random() < 0.3:
+        for dt in rng.sample(["float32", "int64", "int16", "complex64", ">f8", "<c16" if D.dtype.kind == "c" else "<f8"], 3):
+            dt = np.dtype(dt)
+            if dt.kind != "c" and np.iscomplexobj(D):
+                continue
+            with np.errstate(all="ignore"), warnings.catch_warnings():
+                warnings.simplefilter("ignore")
+                Y = D.astype(dt)
+                back = Y.astype(np.complex128 if (np.iscomplexobj(D) or dt.kind == "c") else np.float64)
+            if dt.kind == "c" and not np.iscomplexobj(D):
+                continue
+            if np.array_equal(np.ascontiguousarray(back).view(np.uint64), np.ascontiguousarray(D).view(np.uint64)):
+                X = Y
+                break
+    t = rng.random()
+    if t < 0.25:
+        return np.asfortranarray(X)
+    if t < 0.4 and X.size:
+        big = np.zeros((2 * X.shape[0] + 1, 3 * X.shape[1] + 2), X.dtype)
+        big[1::2, 2::3] = X
+        return big[1::2, 2::3]          # a strided view
+    if t < 0.5 and X.size:
+        return X[::-1, ::-1].copy()[::-1, ::-1]   # negative strides
+    return X.copy()
 
 
 def _logical(m):
@@ -431,6 +539,16 @@ def _write(op4, path, case, inputs, binary):
         warnings.simplefilter("ignore")
         forms = case["forms"]
         kw = {} if case.get("default_digits") else {"digits": case["digits"]}
+        import zlib
+        h = zlib.crc32(repr((len(case["names"]), case["digits"], case["opt"], binary, tuple(case["names"]))).encode()) % 7
+        if h == 0:
+            # a call to `write` replaces the file: whatever was there must not survive
+            op4.write(path, ["zz1", "zz2"], [np.ones((9, 7)), np.eye(5)], binary=binary)
+        if h in (1, 2) and len(set(case["names"])) == len(case["names"]):
+            # the mapping interface: insertion order, `(matrix, form)` values
+            d = {n: (x if f is None and h == 1 else (x, f)) for n, x, f in zip(case["names"], inputs, forms)}
+            op4.write(path, d, binary=binary, endian=case["endian"], sparse=case["opt"], **kw)
+            return
         op4.write(path, list(case["names"]), list(inputs), binary=binary,
                   endian=case["endian"], sparse=case["opt"], forms=None if all(f is None for f in forms) else list(forms), **kw)
 
@@ -939,6 +1057,365 @@ def _ascii_reader_streams(ctx, op4, drv, sc, ascii_texts):
                 ctx.disagree("ablk", {"dformat": key[0], "L": key[1], "perline": key[2], "numlen": key[3], "text": key[4]}, impl, r)
 
 
+# ---------------------------------------------------------------------------------------------
+# `write` on its arguments (Model/Op4Input.lean, Model/Op4Sparse.lean): inputs for the `wr` / `tod` streams
+
+_WR_DTYPES = ["float64", "float64", "float32", "int64", "int32", "uint8", "bool", "complex128", "complex64", ">f8", ">c16", "uint64"]
+_INT_POOL = [0, 1, -1, 2, 7, -12345, 2 ** 31 - 1, 2 ** 53, 2 ** 53 + 1, 2 ** 53 + 3, -(2 ** 53) - 1, 2 ** 62 + 12345, -(2 ** 63)]
+_F32_POOL = [1.5, -0.1, 1e-45, 3.4e38, 1.17549435e-38, 5.877e-39, 16777217.0, -2.5e-20, 0.0]
+
+
+def _wr_values(rng, n, dt):
+    """n values of numpy dtype `dt` (a few zeros among them), as a 1-d array"""
+    kind = np.dtype(dt).kind
+    if kind == "b":
+        return np.array([rng.random() < 0.6 for _ in range(n)], dtype=bool)
+    if kind in "iu":
+        info = np.iinfo(np.dtype(dt))
+        vals = []
+        for _ in range(n):
+            v = rng.choice(_INT_POOL) if rng.random() < 0.6 else rng.randint(-1000, 1000)
+            if rng.random() < 0.25:
+                v = 0
+            v = min(max(v, info.min), info.max)
+            vals.append(v)
+        return np.array(vals, dtype=np.dtype(dt))
+    if kind == "f":
+        if np.dtype(dt).itemsize == 4:
+            vals = [rng.choice(_F32_POOL) if rng.random() < 0.5 else rng.gauss(0, 100) for _ in range(n)]
+            vals = [0.0 if rng.random() < 0.25 else v for v in vals]
+            with np.errstate(all="ignore"):
+                return np.array(vals, dtype=np.float32)
+        vals = _rand_values(rng, n, rng.choice(["int", "normal", "bits+", "special"]))
+        vals = [0.0 if rng.random() < 0.25 else v for v in vals]
+        return np.array(vals, dtype=np.float64).astype(np.dtype(dt))
+    # complex
+    if np.dtype(dt).itemsize == 8:
+        re = _wr_values(rng, n, "float32")
+        im = _wr_values(rng, n, "float32")
+        return (re + 1j * im).astype(np.complex64)
+    re = _wr_values(rng, n, "float64")
+    im = _wr_values(rng, n, "float64")
+    out = np.empty(n, np.complex128)
+    out.real, out.imag = re, im
+    return out.astype(np.dtype(dt))
+
+
+def _raw_tokens(a):
+    """the logical elements of an ndarray in row-major order as raw tokens of the `wr` protocol"""
+    a = np.asarray(a)
+    flat = a.ravel(order="C")
+    dt = flat.dtype
+    nat = flat.astype(dt.newbyteorder("="))
+    k = dt.kind
+    if k == "b":
+        return ["b%d" % int(v) for v in nat.tolist()]
+    if k in "iu":
+        return ["i%d" % int(v) for v in nat.tolist()]
+    if k == "f" and dt.itemsize == 8:
+        return ["d%d" % v for v in np.ascontiguousarray(nat).view(np.uint64).tolist()]
+    if k == "f" and dt.itemsize == 4:
+        return ["s%d" % v for v in np.ascontiguousarray(nat).view(np.uint32).tolist()]
+    if k == "c" and dt.itemsize == 16:
+        return ["d%d" % v for v in np.ascontiguousarray(nat).view(np.float64).view(np.uint64).tolist()]
+    if k == "c" and dt.itemsize == 8:
+        return ["s%d" % v for v in np.ascontiguousarray(nat).view(np.float32).view(np.uint32).tolist()]
+    raise ValueError("dtype %r" % dt)
+
+
+def _nd_token(a):
+    a = np.asarray(a)
+    cplx = a.dtype.kind == "c"
+    return " ".join(["nd", str(a.ndim)] + [str(d) for d in a.shape] + ["1" if cplx else "0", str(a.size)] + _raw_tokens(a))
+
+
+def _sp_token(A):
+    """a scipy.sparse matrix as `tocoo()` presents it (storage order); double precision values"""
+    C = A.tocoo(copy=True)
+    cplx = np.iscomplexobj(C.data)
+    data = np.asarray(C.data).astype(np.complex128 if cplx else np.float64)
+    vb = _bits(data)
+    w = 2 if cplx else 1
+    t = ["sp", str(C.shape[0]), str(C.shape[1]), "1" if cplx else "0", str(len(C.row))]
+    for k, (i, j) in enumerate(zip(C.row.tolist(), C.col.tolist())):
+        t += [str(i), str(j)] + [str(b) for b in vb[w * k : w * k + w]]
+    return " ".join(t)
+
+
+def _layout_variant(rng, B, tags):
+    """the same logical array in another memory layout / byte order"""
+    t = rng.random()
+    if B.ndim < 1 or B.size == 0 or t < 0.4:
+        return B.copy()
+    if t < 0.55 and B.ndim == 2:
+        tags.add("F-order")
+        return np.asfortranarray(B)
+    if t < 0.8:
+        tags.add("strided")
+        big = np.zeros(tuple(2 * d + 1 for d in B.shape), B.dtype)
+        sl = tuple(slice(1, None, 2) for _ in B.shape)
+        big[sl] = B
+        return big[sl]
+    tags.add("negative-stride")
+    rev = B[tuple(slice(None, None, -1) for _ in B.shape)].copy()
+    return rev[tuple(slice(None, None, -1) for _ in B.shape)]
+
+
+def _gen_wr_sparse(rng, tags):
+    """a scipy.sparse input built from explicit triplets: any order, duplicates (<= 3 per position, so that
+    np.add.reduceat adds sequentially), explicit zeros, cancelling duplicates; all formats"""
+    rows, cols = rng.choice([(1, 1), (3, 3), (4, 4), (5, 2), (2, 6), (6, 4), (7, 7), (4, 1)])
+    cplx = rng.random() < 0.3
+    P = _gen_pattern(rng, rows, cols)
+    sym = rows == cols and rng.random() < 0.4
+    trip = []
+    for i in range(rows):
+        for j in range(cols):
+            if not P[i, j] and not (sym and P[j, i]):
+                continue
+            v = _rand_values(rng, 1, rng.choice(["int", "normal", "special"]))[0]
+            if abs(v) > 1e150:
+                v = 2.5e120     # (sums of duplicates must stay finite in every order)
+            if cplx:
+                v = complex(v, rng.choice([0.0, -0.0, 2.5, _rand_values(rng, 1, "normal")[0]]))
+                if rng.random() < 0.15:
+                    v = complex(-0.0, v.imag if v.imag != 0 else 1.0)
+            trip.append([i, j, v])
+    if sym:
+        d = {(i, j): v for i, j, v in trip}
+        trip = [[i, j, d.get((min(i, j), max(i, j)), v)] for i, j, v in trip]
+    fmt = rng.choice(["coo", "coo", "csr", "csc", "bsr", "dia", "lil"])
+    dtype = "complex128" if cplx else rng.choice(["float64", "float64", "float64", "float32", "int64"])
+    if dtype != "float64" and not cplx:
+        # values that survive the conversion to float32 / int64 as finite numbers
+        trip = [[i, j, float(rng.choice([1, 2, 3, -1, -7, 1000, 0.5, -2.25, 16777217, 1e-3]))] for i, j, _ in trip]
+    dup_ok = fmt in ("coo", "csr", "csc") and dtype in ("float64", "complex128")
+    out = []
+    for i, j, v in trip:
+        t = rng.random()
+        if dup_ok and t < 0.2:
+            tags.add("duplicates")
+            parts = [v * 0.25, v * 0.5] if rng.random() < 0.5 else [v, -v]
+            if rng.random() < 0.5:
+                parts.append(v * 0.125 if not cplx else complex(v.real, 0.0))
+            out += [[i, j, x] for x in parts]
+        else:
+            out.append([i, j, v])
+    if fmt in ("coo", "csr", "csc") and rng.random() < 0.3 and rows * cols:
+        tags.add("explicit-zero")
+        out.append([rng.randrange(rows), rng.randrange(cols), 0.0])
+        if rng.random() < 0.5:
+            out.append([rng.randrange(rows), rng.randrange(cols), -0.0])
+    rng.shuffle(out)
+    if len(out) > 1:
+        tags.add("unsorted")
+    I = np.array([t[0] for t in out], dtype=np.int32)
+    J = np.array([t[1] for t in out], dtype=np.int32)
+    V = np.array([t[2] for t in out], dtype=np.complex128 if cplx else np.float64)
+    if dtype == "float32":
+        V = V.astype(np.float32)
+        tags.add("sparse-float32")
+    elif dtype == "int64":
+        with np.errstate(all="ignore"):
+            V = np.where(np.abs(V) < 1e15, np.round(V), 3.0).astype(np.int64)
+        tags.add("sparse-int")
+    if fmt == "coo":
+        A = sp.coo_matrix((V, (I, J)), shape=(rows, cols))
+    elif fmt in ("csr", "csc"):
+        # built from the raw arrays: duplicates and unsorted indices are kept as they are
+        major, minor, n = (I, J, rows) if fmt == "csr" else (J, I, cols)
+        order = np.argsort(major, kind="stable")
+        indptr = np.concatenate(([0], np.cumsum(np.bincount(major, minlength=n)))).astype(np.int32)
+        cls = sp.csr_matrix if fmt == "csr" else sp.csc_matrix
+        A = cls((V[order], minor[order], indptr), shape=(rows, cols))
+    else:
+        A = sp.coo_matrix((V, (I, J)), shape=(rows, cols))
+        A = {"bsr": lambda: A.tobsr(), "dia": lambda: A.todia(), "lil": lambda: A.tolil()}[fmt]()
+    tags.add("sparse-" + fmt)
+    if cplx:
+        tags.add("sparse-complex")
+    return A
+
+
+def _gen_wr_input(rng, tags):
+    """one matrix argument of `write`: (object, token)"""
+    t = rng.random()
+    if t < 0.3:
+        A = _gen_wr_sparse(rng, tags)
+        return A, _sp_token(A)
+    dt = rng.choice(_WR_DTYPES)
+    k = np.dtype(dt).kind
+    tags.add({"f": "float%d" % (8 * np.dtype(dt).itemsize), "i": "int", "u": "int", "b": "bool",
+              "c": "complex%d" % (8 * np.dtype(dt).itemsize)}[k])
+    if not np.dtype(dt).isnative:
+        tags.add("byteswapped")
+    u = rng.random()
+    if u < 0.1:
+        tags.add("scalar")
+        B = _wr_values(rng, 1, dt).reshape(())
+        if rng.random() < 0.5 and np.dtype(dt).isnative and k in "fi" and np.dtype(dt).itemsize == 8:
+            obj = B.item()      # a python float / int
+            return obj, _nd_token(np.asarray(obj))
+        return B, _nd_token(B)
+    if u < 0.3:
+        tags.add("1d")
+        n = rng.choice([1, 2, 3, 5, 8])
+        B = _wr_values(rng, n, dt)
+    elif u < 0.36:
+        tags.add("3d")
+        shp = rng.choice([(1, 1, 1), (2, 1, 2), (1, 2, 3)])
+        B = _wr_values(rng, int(np.prod(shp)), dt).reshape(shp)
+    else:
+        rows, cols = rng.choice([(1, 1), (1, 4), (4, 1), (2, 2), (3, 3), (4, 4), (3, 5), (6, 2), (0, 2), (2, 0)])
+        B = _wr_values(rng, rows * cols, dt).reshape(rows, cols)
+        if rows == cols and rows > 1 and rng.random() < 0.5:
+            iu = np.triu(np.ones(B.shape, bool))
+            B = np.where(iu, B, B.T)
+            if rng.random() < 0.3 and k in "fc":
+                B = B.copy()
+                with np.errstate(all="ignore"):
+                    nv = B[rows - 1, 0] * B.dtype.type(1 + 1e-7) if rng.random() < 0.5 else B[rows - 1, 0] + B.dtype.type(1)
+                if np.isfinite(nv):
+                    B[rows - 1, 0] = nv
+    obj = _layout_variant(rng, B, tags)
+    if B.ndim == 2 and B.size and rng.random() < 0.1 and np.dtype(dt).isnative and k in "fi":
+        tags.add("list-of-lists")
+        obj = B.tolist()
+        return obj, _nd_token(np.asarray(obj))
+    return obj, _nd_token(obj)
+
+
+def _gen_wr_case(rng):
+    tags = set()
+    n = rng.choice([1, 1, 2, 3])
+    items = [_gen_wr_input(rng, tags) for _ in range(n)]
+    names = [_gen_name(rng) for _ in range(n)]
+    form_of = lambda: None if rng.random() < 0.55 else rng.choice([1, 2, 3, 6, 8, 9, 13])
+    opt = rng.choice(["auto", "dense", "bigmat", "nonbigmat"])
+    binary = rng.random() < 0.6
+    case = {"opt": opt, "binary": binary, "endian": rng.choice(["<", ">"]), "digits": rng.choice([16, 16, 9, 3, 17]), "tags": tags}
+    kind = rng.choice(["dict", "list", "list", "one"]) if n > 1 or rng.random() < 0.5 else "one"
+    if kind == "one" and n > 1:
+        kind = "list"
+    tok = []
+    if kind == "dict":
+        tags.add("dict")
+        while len(set(names)) < n:
+            names = [_gen_name(rng) for _ in range(n)]
+        d, parts = {}, []
+        for nm, (obj, mt) in zip(names, items):
+            if isinstance(obj, list):
+                obj = np.asarray(obj)   # (a list as a mapping value means `(matrix, form)`: documented)
+            t = rng.random()
+            if t < 0.4:
+                d[nm] = obj
+                parts += [nm.encode().hex() or "-", "M", mt]
+            elif t < 0.55:
+                d[nm] = (obj, None)
+                parts += [nm.encode().hex() or "-", "N", mt]
+            else:
+                f = rng.choice([1, 2, 6, 9])
+                d[nm] = (obj, f) if rng.random() < 0.5 else [obj, f]
+                parts += [nm.encode().hex() or "-", "P %d" % f, mt]
+                tags.add("dict-form")
+        case["args"] = (d, None, None)
+        tok = ["D", str(n)] + parts + ["L", "0", "N"]
+    elif kind == "list":
+        tags.add("list")
+        forms = None
+        ftok = ["N"]
+        t = rng.random()
+        if t < 0.3:
+            forms = [form_of() for _ in range(n)]
+            ftok = ["L", str(n)] + ["-" if f is None else str(f) for f in forms]
+        elif t < 0.4 and n > 1:
+            forms = [form_of() for _ in range(n - 1)]
+            ftok = ["L", str(n - 1)] + ["-" if f is None else str(f) for f in forms]
+            tags.add("forms-short")
+        mats = [o for o, _ in items]
+        if rng.random() < 0.3:
+            mats = tuple(mats)
+        case["args"] = (list(names), mats, forms)
+        tok = ["L", str(n)] + [nm.encode().hex() or "-" for nm in names] + ["L", str(n)] + [mt for _, mt in items] + ftok
+    else:
+        tags.add("one")
+        f = form_of()
+        if isinstance(items[0][0], list):
+            items[0] = (np.asarray(items[0][0]), items[0][1])   # (a list as `matrices` means a list of matrices: documented)
+        case["args"] = (names[0], items[0][0], f)
+        tok = ["O", names[0].encode().hex() or "-", "O", items[0][1]] + (["N"] if f is None else ["O", str(f)])
+    e = {"<": "l", ">": "b"}[case["endian"]]
+    case["token"] = "wr %s %s %d %s %s" % ("b" if binary else "a", e, case["digits"],
+                                          {"auto": "a", "dense": "d", "bigmat": "b", "nonbigmat": "n"}[opt], " ".join(tok))
+    return case
+
+
+def _write_args_streams(ctx, op4, drv, sc):
+    rng = ctx.rng
+    req, post = [], []
+    for _ in range(ctx.pick(700, 5000)):
+        c = _gen_wr_case(rng)
+        p = sc.path()
+        names, mats, forms = c["args"]
+        try:
+            with warnings.catch_warnings():
+                warnings.simplefilter("ignore")
+                op4.write(p, names, mats, binary=c["binary"], digits=c["digits"], endian=c["endian"], sparse=c["opt"], forms=forms)
+            impl = open(p, "rb").read().hex()
+        except struct.error:
+            impl = "struct_error"
+        except ValueError:
+            impl = "ValueError"
+        except Exception as ex:  # noqa: BLE001
+            impl = "exception:" + type(ex).__name__
+        req.append(c["token"])
+        post.append(("wr", c, impl))
+    # -- coo_matrix((V, (I, J)), shape).toarray() ------------------------------------------------------------
+    for _ in range(ctx.pick(300, 2000)):
+        rows, cols = rng.randint(1, 6), rng.randint(1, 5)
+        cplx = rng.random() < 0.4
+        n = rng.randint(0, 12)
+        I = [rng.randrange(rows) for _ in range(n)]
+        J = [rng.randrange(cols) for _ in range(n)]
+        # at most 3 triplets per position
+        seen, keep = {}, []
+        for k in range(n):
+            seen[(I[k], J[k])] = seen.get((I[k], J[k]), 0) + 1
+            if seen[(I[k], J[k])] <= 3:
+                keep.append(k)
+        I, J = [I[k] for k in keep], [J[k] for k in keep]
+        pool = SPECIAL + [0.0, -0.0, -0.0, 1.0, -1.0]
+        V = [complex(rng.choice(pool), rng.choice(pool)) if cplx else rng.choice(pool) for _ in keep]
+        with np.errstate(all="ignore"):
+            X = sp.coo_matrix((np.array(V, complex if cplx else float), (np.array(I, int), np.array(J, int))), shape=(rows, cols)).toarray()
+        vb = _bits(np.array(V, complex if cplx else float))
+        w = 2 if cplx else 1
+        t = ["tod", "1" if cplx else "0", str(rows), str(cols), str(len(I))]
+        for k in range(len(I)):
+            t += [str(I[k]), str(J[k])] + [str(b) for b in vb[w * k : w * k + w]]
+        req.append(" ".join(t))
+        post.append(("tod", (cplx, rows, cols, I, J, [repr(v) for v in V]), " ".join(map(str, _colmajor_bits(X)))))
+    rep = drv.ask(req)
+    for (stream, c, impl), r in zip(post, rep):
+        if stream == "wr":
+            ctx.case(("wr", c["token"]), nontrivial=True, branch="stream:wr")
+            for t in c["tags"]:
+                ctx.count("wr:" + t)
+            ctx.count("wr:binary" if c["binary"] else "wr:ascii")
+            ctx.count("wr:opt-" + c["opt"])
+            if impl in ("ValueError", "struct_error"):
+                ctx.count("wr:" + impl)
+            if r != impl:
+                show = lambda v: (v[:300] + "…") if isinstance(v, str) and len(v) > 300 else v
+                ctx.disagree("wr", {"write_args": c["token"], "tags": sorted(c["tags"])}, show(impl), show(r))
+        else:
+            ctx.case(("tod", c), nontrivial=True, branch="stream:tod")
+            if len(set(zip(c[3], c[4]))) < len(c[3]):
+                ctx.count("tod:duplicates")
+            if r != impl:
+                ctx.disagree("tod", {"cplx": c[0], "rows": c[1], "cols": c[2], "I": c[3], "J": c[4], "V": c[5]}, impl, r)
+
+
 def correspondence(ctx):
     op4 = _op4()
     rng = ctx.rng
@@ -1103,6 +1580,11 @@ def correspondence(ctx):
                     ctx.sample({"names": case["names"], "opt": case["opt"], "endian": case["endian"],
                                 "shapes": [list(m["D"].shape) for m in case["mats"]], "bytes": len(impl) // 2})
         _ascii_reader_streams(ctx, op4, drv, sc, ascii_texts)
+        _write_args_streams(ctx, op4, drv, sc)
+        hist = {}
+        for d_ in ctx.disagreements:
+            hist[d_["stream"]] = hist.get(d_["stream"], 0) + 1
+        ctx.extra["disagreement_streams"] = hist
         ctx.extra["first_disagreements"] = [
             {"stream": d["stream"], "impl": str(d["impl"])[:400], "model": str(d["model"])[:400],
              "input": {k: v for k, v in d["input"].items() if k != "mats"} if isinstance(d["input"], dict) else d["input"],
@@ -1125,7 +1607,15 @@ def correspondence(ctx):
                                 "amut:lower", "amut:no-format", "amut:title-blanks", "amut:later-r-garbage", "amut:defaults-used",
                                 "amut:rejected", "amut:accepted", "stream:afld", "afld:ValueError", "afld:value",
                                 "stream:aint", "aint:ValueError", "aint:value", "stream:avals", "avals:ValueError", "avals:complex",
-                                "stream:ablk", "ablk:dformat", "ablk:partial-last-line", "ablk:short-file"])
+                                "stream:ablk", "ablk:dformat", "ablk:partial-last-line", "ablk:short-file"]
+                             + ["stream:wr", "stream:tod", "tod:duplicates", "wr:binary", "wr:ascii", "wr:dict", "wr:dict-form",
+                                "wr:list", "wr:one", "wr:forms-short", "wr:scalar", "wr:1d", "wr:3d", "wr:ValueError",
+                                "wr:float64", "wr:float32", "wr:int", "wr:bool", "wr:complex128", "wr:complex64",
+                                "wr:byteswapped", "wr:F-order", "wr:strided", "wr:negative-stride", "wr:list-of-lists",
+                                "wr:sparse-coo", "wr:sparse-csr", "wr:sparse-csc", "wr:sparse-bsr", "wr:sparse-dia",
+                                "wr:sparse-lil", "wr:sparse-complex", "wr:sparse-float32", "wr:sparse-int",
+                                "wr:duplicates", "wr:explicit-zero", "wr:unsorted", "wr:opt-auto", "wr:opt-dense",
+                                "wr:opt-bigmat", "wr:opt-nonbigmat"])
     finally:
         sc.close()
 
@@ -1216,6 +1706,34 @@ def _family(case, binary, what):
     return "op4-%s-%s-%s-%s" % ("binary" if binary else "ascii", case["opt"], kinds, what)
 
 
+def _auto_sparse_expected(opt, kind, D):
+    """what `sparse=None` must return (documented: sparse iff written in a sparse format; a sparse-format file
+    of a matrix without rows / without non-zeros is byte-identical to the dense-format file)"""
+    lay = opt if opt != "auto" else ("bigmat" if kind == "sparse" else "dense")
+    if lay == "nonbigmat" and D.shape[0] >= 65536:
+        lay = "bigmat"
+    if lay == "dense":
+        return False
+    if lay == "bigmat":
+        return D.shape[0] > 0
+    return bool(np.any(D))
+
+
+def _coo_expected(opt, kind, D):
+    """the (row, col) pairs `sparse=True` must return, in file order: column by column, rows ascending; the sparse
+    formats hold exactly the non-zero elements, the dense format everything from the first to the last one"""
+    lay = opt if opt != "auto" else ("bigmat" if kind == "sparse" else "dense")
+    rows, cols = [], []
+    for c in range(D.shape[1]):
+        nz = np.nonzero(D[:, c])[0]
+        if len(nz) == 0:
+            continue
+        r = list(range(int(nz[0]), int(nz[-1]) + 1)) if lay == "dense" else nz.tolist()
+        rows += r
+        cols += [c] * len(r)
+    return rows, cols
+
+
 def _check_roundtrip(op4, sc, case, inputs, binary):
     """returns None or (what, observed, required)"""
     try:
@@ -1247,6 +1765,15 @@ def _check_roundtrip_(op4, sc, case, inputs, binary):
                 return ("read-type", "sparse=True returned %s" % type(X).__name__, "a scipy sparse matrix")
             if mode is False and sp.issparse(X):
                 return ("read-type", "sparse=False returned a sparse matrix", "ndarray")
+            if mode is None and sp.issparse(X) != _auto_sparse_expected(case["opt"], m["kind"], m["D"]):
+                return ("auto-sparse", "sparse=None returned %s" % type(X).__name__,
+                        "sparse" if _auto_sparse_expected(case["opt"], m["kind"], m["D"]) else "ndarray")
+            if mode is True and sp.issparse(X) and m["D"].shape[0] < 65536:
+                er, ec = _coo_expected(case["opt"], m["kind"], m["D"])
+                Xc = X.tocoo()
+                if Xc.row.tolist() != er or Xc.col.tolist() != ec:
+                    return ("coo-triplets", {"row": Xc.row.tolist()[:40], "col": Xc.col.tolist()[:40]},
+                            {"row": er[:40], "col": ec[:40]})
             A = X.toarray() if sp.issparse(X) else np.asarray(X)
             D = m["D"]
             if A.shape != D.shape:
@@ -1474,6 +2001,95 @@ def _shrink(op4, sc, case, binary, rng):
     return best
 
 
+def _oracle_f49(ctx, op4, sc):
+    try:
+        avail = int([ln for ln in open("/proc/meminfo") if ln.startswith("MemAvailable")][0].split()[1]) // 1024 ** 2
+        free_gb = shutil.disk_usage("/tmp").free // 1024 ** 3
+    except Exception:  # noqa: BLE001
+        avail, free_gb = 0, 0
+    if avail < 24 or free_gb < 8:
+        ctx.skip("F49 reproduction needs 24 GB of memory and 8 GB of scratch space")
+        return
+    n = 2 ** 28 - 1
+    A = sp.coo_matrix((np.array([1.0, 2.0]), ([0, n - 1], [0, 0])), shape=(n, 1))
+    p = sc.path()
+    ctx.count("oracle:f49-2GiB-record")
+    inp = {"input": "scipy.sparse.coo_matrix(([1.0, 2.0], ([0, 2**28 - 2], [0, 0])), shape=(2**28 - 1, 1))",
+           "call": "op4.write(f, ['a', 'z'], [A, numpy.eye(2)], sparse='dense'); op4.dir(f)"}
+    try:
+        with warnings.catch_warnings():
+            warnings.simplefilter("ignore")
+            op4.write(p, ["a", "z"], [A, np.eye(2)], sparse="dense")
+    except (struct.error, ValueError, OverflowError):
+        os.path.exists(p) and os.remove(p)
+        return  # a refused write is what the ndarray path does: fine
+    except MemoryError:
+        os.path.exists(p) and os.remove(p)
+        ctx.skip("F49 reproduction: MemoryError")
+        return
+    try:
+        reclen = struct.unpack("<i", open(p, "rb").read(36)[32:36])[0]
+        try:
+            names = op4.dir(p, verbose=False)[0]
+            ok = names == ["a", "z"]
+            obs = "dir -> %r" % (names,)
+        except Exception as e:  # noqa: BLE001
+            ok, obs = False, "dir raises %s: %s" % (type(e).__name__, e)
+        if reclen < 0 or not ok:
+            ctx.fail(FIXED_F49, "binary dense-layout write of a scipy.sparse input whose column record is >= 2 GiB: the record "
+                     "length is computed in numpy int32 arithmetic and wraps", inp,
+                     "record marker %d; %s" % (reclen, obs), "struct.error like the ndarray path, or a readable file")
+            ctx.extra["unknown_failures"] = ctx.extra.get("unknown_failures", 0) + 1
+    finally:
+        os.path.exists(p) and os.remove(p)
+
+
+class _StopWrite(Exception):
+    pass
+
+
+def _oracle_f49_quick(ctx, op4):
+    """the cheap guard of F49: the dense-layout column record of a scipy.sparse input (int32 index arrays) spanning
+    2**28 - 1 rows, handed to the binary writer with a file object that looks at the column header and stops the write
+    before any value is packed (so neither 9 GB of memory nor a 2 GiB file are needed).  The repaired code never gets
+    that far: struct.pack refuses the record length, as for an ndarray.  Uses OP4._write_binary / _ensure_2d_dp
+    directly; if they are not there or do not take these arguments the guard is skipped, never failed."""
+    n = 2 ** 28 - 1
+    A = sp.coo_matrix((np.array([1.0, 2.0]), (np.array([0, n - 1], dtype=np.int32), np.array([0, 0], dtype=np.int32))), shape=(n, 1))
+    seen = []
+
+    class _F:
+        def write(self, b):
+            seen.append(bytes(b))
+            if len(seen) >= 2:
+                raise _StopWrite()
+            return len(b)
+
+    ctx.count("oracle:f49-quick-guard")
+    try:
+        mat = op4._ensure_2d_dp(A)
+        with warnings.catch_warnings():
+            warnings.simplefilter("ignore")
+            op4.OP4()._write_binary(_F(), "a", mat, "<", 2)
+        ctx.skip("F49 quick guard: the writer returned without a second write")
+    except (struct.error, OverflowError):
+        return  # refused like the ndarray path
+    except _StopWrite:
+        rec = seen[1]
+        reclen = struct.unpack("<i", rec[:4])[0] if len(rec) >= 4 else None
+        if reclen != 3 * 4 + n * 8:
+            ctx.fail(FIXED_F49, "binary dense-layout write of a scipy.sparse input whose column record is >= 2 GiB: the record "
+                     "length is computed in numpy int32 arithmetic and wraps",
+                     {"input": "scipy.sparse.coo_matrix(([1.0, 2.0], ([0, 2**28 - 2], [0, 0])), shape=(2**28 - 1, 1))",
+                      "call": "OP4()._write_binary(f, 'a', _ensure_2d_dp(A), '<', 2), stopped after the column header"},
+                     "column header announces record length %r" % (reclen,), "struct.error like the ndarray path")
+            ctx.extra["unknown_failures"] = ctx.extra.get("unknown_failures", 0) + 1
+    except MemoryError:
+        ctx.skip("F49 quick guard: MemoryError")
+    except (AttributeError, TypeError) as e:
+        ctx.skip("F49 quick guard: inner writer interface changed (%s)" % type(e).__name__)
+
+
 def _valid_names(rng, case):
     case["names"] = [_gen_name(rng, valid_only=True) for _ in case["names"]]
     if len(case["names"]) > 1 and rng.random() < 0.3:
@@ -1570,6 +2186,32 @@ def search(ctx, hints):
                              {"x": x.tolist(), "dtype": str(x.dtype)}, got.tolist(), np.atleast_2d(x).astype(float).tolist())
             except Exception as e:  # noqa: BLE001
                 ctx.fail("op4-binary-coerced-input", "write/read raises", {"x": x.tolist(), "dtype": str(x.dtype)}, repr(e), "round trip")
+        # an invalid `sparse` option is refused before the file is touched
+        for binary in (True, False):
+            p = sc.path()
+            op4.write(p, "a", np.eye(2), binary=binary)
+            before = open(p, "rb").read()
+            ctx.count("oracle:invalid-sparse-option")
+            try:
+                op4.write(p, "a", np.ones((3, 3)), binary=binary, sparse="sprase")
+                ctx.fail("op4-write-invalid-sparse-option", "an invalid `sparse` option is accepted", {"sparse": "sprase", "binary": binary},
+                         "no exception", "ValueError")
+            except ValueError:
+                if open(p, "rb").read() != before:
+                    ctx.fail("op4-write-invalid-sparse-option", "the refused call modified the file", {"sparse": "sprase", "binary": binary},
+                             "file changed", "file untouched")
+        # more than two dimensions
+        ctx.count("oracle:3d-input")
+        try:
+            op4.write(sc.path(), "a", np.ones((2, 2, 2)))
+            ctx.fail("op4-write-3d-input", "a 3-d array is accepted", {"shape": [2, 2, 2]}, "no exception", "ValueError")
+        except ValueError:
+            pass
+        # F49: a sparse input in the dense layout whose column record reaches 2 GiB (needs ~9 GB of memory and a
+        # 2 GiB scratch file: thorough tier only, and only when the machine has the room)
+        _oracle_f49_quick(ctx, op4)
+        if ctx.thorough:
+            _oracle_f49(ctx, op4, sc)
         # ASCII variant files (reader only)
         for _ in range(ctx.pick(300, 2500)):
             _oracle_variant(ctx, op4, sc, _gen_vcase(rng))
@@ -1594,6 +2236,17 @@ def replay(ctx, data):
     if not f:
         return None
     j = f["input"]
+    if f.get("family") == FIXED_F49:
+        sc = _Scratch()
+        try:
+            before = len(ctx.failures)
+            if "stopped after the column header" in str(j.get("call", "")):
+                _oracle_f49_quick(ctx, op4)
+            else:
+                _oracle_f49(ctx, op4, sc)
+            return dict(ctx.failures[-1]) if len(ctx.failures) > before else None
+        finally:
+            sc.close()
     if isinstance(j.get("variant"), dict):
         sc = _Scratch()
         try:
